@@ -16,7 +16,10 @@ RULE = ("one payload (tree or single file), one (version, pl, private/source/com
         "directories, a copy of the tree elsewhere, shuffled os.listdir / Path.iterdir, "
         "tracker/seed/outfile settings, progress 0/1/2, two clock values; whole files equal "
         "except creation date for equal input; distinct by (version, creator, tree shape, "
-        "variant kinds); non-trivial when spelling != canonical and enumeration order != sorted")
+        "variant kinds); non-trivial when spelling != canonical and enumeration order != sorted; "
+        "plus: the same path made into a torrent again by the same process after the tree changed "
+        "below the first level (files added/removed/resized in sub-directories, also across the "
+        "threshold of the automatic piece length) must equal the result for a fresh copy elsewhere")
 
 
 @contextlib.contextmanager
@@ -298,15 +301,163 @@ def run_case(run, drv, case_seed, tier):
              True, sample=dict(case, variants=sorted(set(variants))),
              classes=[f"v{version}", kind, "single" if single else "dir"])
 
+# ---------------------------------------------------------------- the tree changes between two creates
+
+# fixed shapes: (creator, route, piece length or None = automatic, nested file near the automatic
+# threshold or None, steps); every run includes them
+CHANGED_FIXED = {
+    -1: ("v1", "lib", 16384, None, ["add", "remove", "grow"]),
+    -2: ("v1", "cli", 32768, None, ["newdir", "shrink", "replace"]),
+    -3: ("v1", "lib", None, 16_000_000, ["grow-big"]),
+    -4: ("a2", "cli", None, 16_000_000, ["grow-big"]),
+    -5: ("hy", "lib", None, 16_000_000, ["grow-big"]),
+    -6: ("v2", "lib", None, 16_800_000, ["shrink-big"]),
+    -7: ("a3", "cli", 16384, None, ["add", "remove", "top-add"]),
+    -8: ("v1", "cli", None, None, ["add-big"]),
+}
+CLI_VERSION = {"v1": "1", "a2": "2", "a3": "3"}
+
+
+def _make(kind, route, path, out, pl, iopts):
+    if route == "cli":
+        argv = ["create", "--prog", "0", "--meta-version", CLI_VERSION[kind], "-o", out]
+        if pl:
+            argv += ["--piece-length", str(pl)]
+        if "comment" in iopts:
+            argv += ["--comment", iopts["comment"]]
+        if iopts.get("private"):
+            argv += ["--private"]
+        impl.cli(argv + [path])
+        with open(out, "rb") as fd:
+            return fd.read()
+    return impl.create(kind, path, out, piece_length=pl, **iopts)
+
+
+def run_changed(run, drv, changed_seed, tier):
+    """One process makes a torrent of a directory, the tree then changes - below the first level:
+    files are added to / removed from / resized in sub-directories, the entries of the top
+    directory itself stay - and the same path is made into a torrent again with the same
+    arguments.  The info dictionary is a function of the payload only, so it must equal that of
+    an identical fresh copy of the changed tree at another location (including the automatically
+    chosen piece length when none is given)."""
+    from harness.common import Blob
+    rng = random.Random(f"changed/{changed_seed}")
+    if changed_seed in CHANGED_FIXED:
+        kind, route, pl, big, steps = CHANGED_FIXED[changed_seed]
+    else:
+        kind = rng.choice(["v1", "v1", "v1", "a2", "a3", "v2", "hy"])
+        route = rng.choice(["lib", "cli"]) if kind in CLI_VERSION else "lib"
+        pl = rng.choice([16384, 32768, None])
+        big = None
+        steps = [rng.choice(["add", "remove", "grow", "shrink", "newdir", "replace", "top-add"])
+                 for _ in range(rng.randrange(1, 4))]
+    iopts = {}
+    if rng.random() < 0.3:
+        iopts["comment"] = rng.choice(metas.WORDS)
+    if rng.random() < 0.3:
+        iopts["private"] = True
+    sub, deep = rng.choice(["sub", "d", "ü", "a.b"]), rng.choice(["deep", "e", "z z"])
+    names = rng.sample([n for n in gen.NAMES if n not in ("~", "-dash")], 6)
+    tree = {names[0]: 40000, f"{sub}/{names[1]}": 70000, f"{sub}/{deep}/{names[2]}": 1234,
+            f"{sub}/{deep}/{names[3]}": 999, f"other/{names[4]}": rng.choice([0, 5, 16384])}
+    if big:
+        tree[f"{sub}/big.bin"] = big
+    case = {"changed_seed": changed_seed, "creator": kind, "route": route, "pl": pl,
+            "steps": steps, "tree": dict(tree), "iopts": iopts}
+    counter = [100]
+
+    def data(n):
+        counter[0] += 1
+        return Blob.rand(counter[0], n).bytes()
+    with sandbox("c08c") as box:
+        root = os.path.join(box, "work", "payload")
+        write_tree(root, [(rel, data(n)) for rel, n in tree.items()])
+        impl.pin_clock(1_700_000_000)
+        out = os.path.join(box, "out.torrent")
+        _make(kind, route, root, out, pl, iopts)
+        for i, step in enumerate(steps):
+            nested = sorted(r for r in tree if r.count("/") >= 1 and not r.endswith("/big.bin"))
+            victim = nested[rng.randrange(len(nested))] if nested else None
+            path = lambda rel: os.path.join(root, *rel.split("/"))  # noqa: E731
+            if step == "add":
+                for rel in (f"{sub}/new-{i}", f"{sub}/{deep}/extra-{i}"):
+                    tree[rel] = rng.choice([1, 20000, 50000])
+                    write_tree(root, [(rel, data(tree[rel]))])
+            elif step == "newdir":
+                rel = f"{sub}/{deep}/fresh-{i}/x"
+                tree[rel] = 16385
+                write_tree(root, [(rel, data(16385))])
+            elif step == "top-add":
+                rel = f"zz-{i}"
+                tree[rel] = 777
+                write_tree(root, [(rel, data(777))])
+            elif step == "add-big":
+                tree[f"{sub}/{deep}/big2.bin"] = 16_500_000
+                write_tree(root, [(f"{sub}/{deep}/big2.bin", data(16_500_000))])
+            elif step in ("grow-big", "shrink-big"):
+                tree[f"{sub}/big.bin"] += 800_000 if step == "grow-big" else -800_000
+                with open(path(f"{sub}/big.bin"), "ab") as fd:     # in place
+                    fd.truncate(tree[f"{sub}/big.bin"])
+            elif victim is None:
+                continue
+            elif step == "remove":
+                os.remove(path(victim))
+                del tree[victim]
+            elif step == "replace":
+                os.remove(path(victim))
+                del tree[victim]
+                rel = victim + ".v2"
+                tree[rel] = 4321
+                write_tree(root, [(rel, data(4321))])
+            elif step == "grow":
+                tree[victim] += 30000
+                with open(path(victim), "ab") as fd:
+                    fd.write(data(30000))
+            elif step == "shrink":
+                tree[victim] //= 2
+                with open(path(victim), "ab") as fd:
+                    fd.truncate(tree[victim])
+            label = f"changed-below:{i}:{step}"
+            here = dict(case, variant=label, tree_now=dict(tree))
+            try:
+                again = _make(kind, route, root, out, pl, iopts)
+                dst = os.path.join(box, f"elsewhere{i}", "payload")
+                shutil.copytree(root, dst)
+                fresh = _make(kind, route, dst, os.path.join(box, "copy.torrent"), pl, iopts)
+            except Exception as exc:
+                from harness.common import raised_in_repo
+                if not (raised_in_repo(exc) or type(exc).__name__ == "CliExit"):
+                    raise
+                run.fail("impl-vs-spec", here, {"raised": repr(exc)[:300]})
+                break
+            if info_bytes(again) != info_bytes(fresh):
+                a, b = refspec.lenient_decode(again)[b"info"], refspec.lenient_decode(fresh)[b"info"]
+                run.fail("impl-vs-spec", here,
+                         {"why": "info dictionary of the changed tree differs from that of an identical "
+                                 "copy at another location",
+                          "keys": sorted(k.decode() for k in set(a) | set(b) if a.get(k) != b.get(k)),
+                          "piece length": [a.get(b"piece length"), b.get(b"piece length")]})
+            shutil.rmtree(os.path.join(box, f"elsewhere{i}"), ignore_errors=True)
+    run.case(["changed-below", kind, route, pl, bool(big), steps], True, sample=case,
+             classes=["recreated-after-change", kind, route + "-route", "auto-pl" if pl is None else "explicit-pl"])
+
 
 def run(tier, seed, replay=None):
     run = Run("C08", tier, seed, RULE)
     drv = Driver()
+    from harness.common import guarded
+    if replay and "changed_seed" in replay["case"]:
+        guarded(run, replay["case"], run_changed, run, drv, replay["case"]["changed_seed"], tier)
+        return run.finish()
     seeds = [replay["case"]["case_seed"]] if replay else \
         [-1, -2, -3, -4, -5, -6] + [run.rng.randrange(10 ** 9) for _ in range(40 if tier == "quick" else 400)]
-    from harness.common import guarded
     for s in seeds:
         guarded(run, {"case_seed": s}, run_case, run, drv, s, tier)
+    if not replay:
+        # (own generator: the case seeds drawn above stay what they were)
+        crng = random.Random(f"{seed}/changed")
+        for s in sorted(CHANGED_FIXED, reverse=True) + [crng.randrange(10 ** 9) for _ in range(12 if tier == "quick" else 120)]:
+            guarded(run, {"changed_seed": s}, run_changed, run, drv, s, tier)
     listing_model(run, drv, tier)
     return run.finish()
 
